@@ -197,10 +197,11 @@ Fixpoint print_formula (sp : bool) (f : formula) : list token :=
       fmt_unary (fassoc f) ([TWord "not"] ++ tsp sp)
         (parens (paren_unary (fprec f) (fprec g) (fmand g)) (print_formula sp g))
   | FQ q vs g =>
-      if begins_with_variable (render (print_formula true g))
-      then print_quantification sp q vs ++ tsp sp ++ TLParen :: print_formula sp g ++ [TRParen]
-      else fmt_unary (fassoc f) (print_quantification sp q vs ++ tsp sp)
-             (parens (paren_unary (fprec f) (fprec g) (fmand g)) (print_formula sp g))
+      (* the body is parenthesised when its text begins with a variable (commit cc14b46; rendered once
+         since 5394f74), or by the rule of fmt_unary *)
+      print_quantification sp q vs ++ tsp sp
+      ++ parens (begins_with_variable (render (print_formula true g)) || fmand g || (fprec f <? fprec g)%nat)
+           (print_formula sp g)
   | FBin c l r =>
       parens (paren_lhs (fprec f) (fprec l) (fmand l) (fassoc l)) (print_formula sp l)
       ++ tsp sp ++ [conn_tok c] ++ tsp sp
